@@ -2,25 +2,21 @@
 """Regenerate MANIFEST.json from the per-property registration table below."""
 import json, os, sys
 sys.path.insert(0, os.path.dirname(os.path.abspath(__file__)))
-from lv import registry
 
 VERIF = os.path.dirname(os.path.dirname(os.path.abspath(__file__)))
 TRUST = ("Lean 4.33.0 kernel (axioms: propext, Classical.choice, Quot.sound only; audited by #print axioms on every run); "
          "tools/lv/extract.py; harness/lvh.c + LIBLOUIS_VERIF hooks; ASan/UBSan as observers; the Lean compiler for "
          "running the model driver. ")
 
-CLAIMED = {
-    "C07": dict(
-        text=("Kernel-checked theorems (LouProofs/C07.lean) that the final position computation of both drivers yields "
-              "in-range inputPos, non-decreasing scanned maps for ANY integer posMapping, and in-range outputPos / "
-              "round-trip under the NonNeg hypothesis the proof forces (negation proved on concrete witnesses); tied to the "
-              "code by trace validation: hook H4 exports every real pass and the composed map, the compiled Lean driver "
-              "must reproduce the API result bit for bit on every call; the property text is evaluated on every "
-              "implementation result as the search oracle."),
-        note=TRUST + "Engines are parameters (Layer A): what a pass does is recorded, not modelled; the one-to-one identity clause is proved in C11.",
-        technique="Lean 4 proof over a hand-written driver model + trace-validation correspondence (H4) + oracle search",
-        design="DESIGN.md §7 C07"),
-}
+import importlib
+CLAIMED = {}
+for f in sorted(os.listdir(os.path.join(VERIF, "tools", "lv", "props"))):
+    if f.startswith("C") and f.endswith(".py"):
+        m = importlib.import_module("lv.props." + f[:-3])
+        if getattr(m, "CLAIM", None):
+            c = dict(m.CLAIM)
+            c["note"] = TRUST + c.get("note", "")
+            CLAIMED[f[:-3]] = c
 
 NOT_YET = "check not built yet in this revision (work in progress, see DESIGN.md §11)"
 
